@@ -1136,6 +1136,24 @@ func (e *wireExec) fieldStep(s *XStep, w *wireTok, env *envelope) {
 	o.Fault("field_rewrite")
 	o.Sig("C06", w.spec.Kind, w.alg, "cbor", "field:"+f+":"+s.How, len(acc) > 0)
 	e.conservation(acc, w, data, "field rewrite with the old signature", f+" "+s.How, "cbor")
+	// the same rewrite with the signed part the issuer really signed carried along in the
+	// envelope (after, or before, the rewritten one): verification must not be over one
+	// element while the token is built from another
+	for i, pos := range []int{2, 1} {
+		r3 := m.root.Clone()
+		orig := env.root.Kids[1].Clone()
+		if pos == 2 {
+			r3.Kids = append(r3.Kids, orig)
+		} else {
+			r3.Kids = []*CB{r3.Kids[0], orig, r3.Kids[1]}
+			continue // [sig, signed, rewritten] decodes to the signed content: C08's extra-element case
+		}
+		d3 := r3.Encode()
+		acc3 := e.offer(d3, "cbor", w.spec.Kind, false, false)
+		o.Fault("field_rewrite_carry")
+		o.Sig("C06", w.spec.Kind, w.alg, "cbor", fmt.Sprintf("field+carry%d:%s:%s", i, f, s.How), len(acc3) > 0)
+		e.conservation(acc3, w, d3, "field rewrite with the signed original carried in the envelope", f+" "+s.How, "cbor")
+	}
 }
 
 // jsonFieldStep: the DAG-JSON form of a token taken apart as plain JSON, fields rewritten,
@@ -1306,6 +1324,16 @@ func (e *wireExec) reencodeStep(s *XStep, w *wireTok, env *envelope) {
 			r2.Kids[0].Data = sig
 			add(name, "signature", r2)
 		}
+	case "extra_elem":
+		// the envelope list carries more than [signature, signed part]: same signature, same
+		// signed part, other bytes
+		extras := []*CB{{Major: 7, Arg: 22}, {Major: 2, Data: []byte{}}, {Major: 3, Data: []byte("x")}, cbUint(0), env.root.Kids[1].Clone(), env.root.Kids[0].Clone(), {Major: 4}, {Major: 5}}
+		r2 := env.root.Clone()
+		r2.Kids = append(r2.Kids, extras[s.Val%len(extras)])
+		if s.At%3 == 0 {
+			r2.Kids = append(r2.Kids, extras[(s.Val/8)%len(extras)].Clone())
+		}
+		add("envelope list with extra elements", "framing", r2)
 	case "trailing":
 		d := append(append([]byte{}, w.cbor...), 0xf6)
 		variants = append(variants, struct {
